@@ -47,9 +47,10 @@ Theorem C09_opt_outgroup_cost : forall S c O r, 0 <= c_floss c -> c_spe c <= c_d
   optimal (S_out S) c (omap og O) (rmap og r) /\ cost c (omap og O) (rmap og r) = cost c O r.
 Proof. exact opt_outgroup_cost. Qed.
 
-(* the model is a function: running it again gives the same result *)
-Theorem C09_model_deterministic : forall S c rp O, reconcile_thl S c rp O = reconcile_thl S c rp O.
-Proof. reflexivity. Qed.
+(* "running it again gives the same result" is NOT a theorem of this file: the model is a Gallina
+   function, for which the statement is [x = x]; determinism of the implementation (hash seeds, set
+   iteration order, history-dependent caches) is not a statement about a pure function.  It is exercised
+   by the reruns of the correspondence batches and stays an OPEN_GOAL of harness/props/c09.py. *)
 
 Print Assumptions C09_opt_scale.
 Print Assumptions C09_opt_monotone.
@@ -57,6 +58,10 @@ Print Assumptions C09_swap_object_children.
 Print Assumptions C09_swap_species_children.
 Print Assumptions C09_opt_outgroup_cost.
 Print Assumptions C09_outgroup_no_gain.
+Print Assumptions C09_cost_scale.
+Print Assumptions C09_cost_monotone.
+Print Assumptions C09_swap_object_children_cost.
+Print Assumptions C09_swap_species_children_cost.
 
 (* F-OUTGROUP-TIES: with floss = 0 the optimal SET does grow (the new root hosts duplications for free) *)
 Example C09_outgroup_ties_refuted :
